@@ -63,6 +63,12 @@ pub fn run_labelled(pre: &[&str], roots: &[&str], globals: &[&str], tests: &[Tes
     Ok(Selected { sel, out, argv })
 }
 
+/// Re-run a labelled selection through the find binary (only meaningful without an injected clock).
+pub fn cross_check(s: &Selected) -> Result<(), String> {
+    let args: Vec<&str> = s.argv.iter().map(|x| x.as_str()).collect();
+    crate::findrun::cross_check_bin(&args, &s.out)
+}
+
 #[derive(Clone, Debug, PartialEq, Eq)]
 pub struct St {
     pub mode: u32,
